@@ -115,6 +115,20 @@ def run(ctx):
             ctx.check(ok, "C17-b", psn.key, "caller's buffer advanced by what Quinn accepted", "advance(%s, %s)" % (pa.vfmt(e[3][0]), pa.vfmt(a)[:60]), "")
             ctx.check(p.ret_shape().startswith("Ready(Ok(") and expr.mentions(p.ret, lambda v: v[0] == "call" and pa.short(v[1]) == "poll_write"),
                       "C17-b", psn.key, "reports the same count", "returns %s" % pa.vfmt(p.ret)[:60], "")
+        # an unframed write never goes out while a framed one is only partly written: every path that reaches Quinn's poll_write
+        # found `writing` empty first (the raw bytes would land in the middle of the pending frame)
+        nw = 0
+        for p in [p for p in ru.all_paths(ctx, "C17-b", psn)]:
+            if not p.has_call("poll_write"):
+                continue
+            nw += 1
+            wt = [t for t in p.tests if "writing" in t[1] and ((t[3][0] == "call" and pa.short(t[3][1]) in ("is_some", "is_none")) or t[3][0] == "discr")]
+            empty = bool(wt) and ((pa.short(wt[0][3][1]) == "is_some" and wt[0][2] == "false") or (pa.short(wt[0][3][1]) == "is_none" and wt[0][2] == "true")
+                                  if wt[0][3][0] == "call" else wt[0][2] == "None")
+            ctx.check(empty, "C17-b", psn.key, "unframed write only while no framed write is pending",
+                      "poll_send hands bytes to Quinn on a path that did not find `writing` empty: a raw write made while a send_data buffer is only "
+                      "partly written is placed in the middle of that frame", "", None, p.describe())
+        ctx.floor("C17-b", "writing paths of poll_send", nw, 1)
     # the receive stream travels into the read future and comes back out with the result: once the future has answered, the stream
     # is put back on EVERY exit, also when the read failed (the next poll_data takes it out again; an empty slot makes it poll a
     # finished future - a panic - instead of reporting the error again)
